@@ -102,7 +102,11 @@ def _mutate(s: str, rng, alpha: list[str]) -> str:
 
 
 def rx_subtie(ctx: Ctx, drv: Driver, per_pattern: int) -> None:
-    pats = gen_regex.patterns()
+    try:
+        pats = gen_regex.patterns()
+    except Exception as e:  # noqa: BLE001  (a pattern object the translator reads is gone: the tie is broken, not the tool)
+        ctx.mismatch("the library's regular expressions could not be read for translation (T1): " + f"{type(e).__name__}: {e}", {"input": ""})
+        return
     rng = ctx.rng
     lines, exp, meta = [], [], []
     hits = {}
@@ -252,7 +256,7 @@ def tie_leaf(ctx: Ctx, drv: Driver, quick: bool) -> None:
     inline_l_tie(ctx, drv, 2000 if quick else 50000)
 
 
-LINK_ATOMS = ["a", "b", " ", "\n", "*", "**", "_", "`", "[", "]", "](", ")", "(u)", "(", "[a](b)", "[a](<b c>)", "[a](b \"t\")", "[a](b 't' )",
+LINK_ATOMS = ["a", "b", " ", "\n", "*", "**", "_", "`", "[", "]", "](", ")", "(u)", "(", "](u)", "](u) ", "<http://p.q>", "<a@b.c>", "[a](b)", "[a](<b c>)", "[a](b \"t\")", "[a](b 't' )",
               "[a]( b (t) )", "[a][r]", "[r][]", "[r]", "[R]", "[foo  bar]", "[a][Foo\tBar]", "[a](javascript:x)", "[a](\\))", "[a](b\\ c)", "[a](b(c)d)",
               "[a](<b>c)", "[*a*](u)", "[a *b](u)*", "[[a](u)](v)", "[a](&amp;)", "[a](b\n\"t\")", "![", "\\[", "\\]", "`]`", "<http://x.y>", "[<http://x.y>](u)",
               "[a](u \"t\\\"q\")", "[a](<u\\>v>)", "[a]()", "[a](<>)", "[]()", "[](u)", "[a](u 't)", "[a](u \"t\" x)", "[a] (u)", "[a]\n[r]", "[a][]", "[é]",
@@ -288,6 +292,10 @@ def inline_l_tie(ctx: Ctx, drv: Driver, n: int) -> None:
     def pairs(d: dict) -> str:
         return ",".join(f"{enc(k)}={enc(v)}" for k, v in d.items()) or "~"
 
+    from . import gens
+    cross = list(gens.crossing_family())
+    rng.shuffle(cross)
+    cross = cross[: max(200, n // 8)]
     subsets = ["tl", "tnl", "tnebl", "tnebml", "tnebsml", "tnebsmlahy", "tml", "tsl", "tbl", "tel", "l", "nebml", "tlahy", "tmlay", "tneblahy"]
     name_re = re.compile(r"&([^&;\s]{1,40});")
     ref_sets = [{}, {"r": ("/ref", "")}, {"r": ("/ref", "RT"), "foo bar": ("/fb", "t\"q"), "é": ("/e", "")}, {"R": ("javascript:x", "")}]
@@ -297,6 +305,9 @@ def inline_l_tie(ctx: Ctx, drv: Driver, n: int) -> None:
         for it in range(n):
             rs = rng.choice(subsets)
             s = "".join(rng.choice(LINK_ATOMS) for _ in range(rng.randint(1, 8)))
+            if it < len(cross):
+                s = cross[it]            # delimiter pairs against link boundaries, constructs with their own delimiter scope inside
+                rs = rng.choice(["tnebsmlahy", "tnebmlahy", "tmla"])
             if "\r" in s or "\x00" in s:
                 continue
             mn = rng.choice([20, 20, 1, 0, 2, 3, 5])
